@@ -1,6 +1,7 @@
 import Pko.Drv.SysMon
 import Pko.Drv.HistCommon
 import Pko.Model.PauseSpec
+import Pko.Drv.C09Pkg
 /-! Driver for C09.
 
 * stream `sys` (controller-level histories of the ObjectSet controller): model = ObjectSet controller
@@ -8,23 +9,32 @@ import Pko.Model.PauseSpec
 * stream `odpause` (histories of one ObjectDeployment and its revisions, recognised by the `ops`
   field; harness/C08 executor, harness/C09 generator): model = `ArchiveHist.observe` (the pass is
   `Archive.osr`), monitor = `PauseSpec.verdict` on every observed pass of the implementation trace:
-  what the harness saw in its store before the pass, the writes, what it saw after the pass. -/
+  what the harness saw in its store before the pass, the writes, what it saw after the pass.
+* stream `pkgpause` (histories of one Package through the real Package controller with the pause
+  dimension, recognised by `"mode":"pkgpause"`; executor harness/C16/ctrl, generator harness/C09):
+  model = `PkgPause.cpass` along the history, monitor = `PkgPauseSpec.checkPRun` (see
+  `Pko.Drv.C09Pkg`). -/
 namespace Pko.Drv.C09
 open Lean Pko.Drv.HistCommon
 
 inductive AnyScn where
   | sys (s : Pko.Drv.SysCommon.Scn)
   | od (h : HistScn)
+  | pkg (p : Pko.Drv.C09Pkg.PScn)
 
 instance : FromJson AnyScn where
   fromJson? j :=
-    match j.getObjVal? "ops" with
-    | .ok _ => AnyScn.od <$> fromJson? j
-    | .error _ => AnyScn.sys <$> fromJson? j
+    match j.getObjVal? "mode" with
+    | .ok (Json.str "pkgpause") => AnyScn.pkg <$> fromJson? j
+    | _ =>
+      match j.getObjVal? "ops" with
+      | .ok _ => AnyScn.od <$> fromJson? j
+      | .error _ => AnyScn.sys <$> fromJson? j
 
 def model : AnyScn → String
   | .sys s => Pko.Drv.SysCommon.model s
   | .od h => histModel h
+  | .pkg p => Pko.Drv.C09Pkg.model p
 
 def passVerdict (_k : Nat) (p : Pko.Model.ArchiveHist.PassObs) : String :=
   Pko.Model.PauseSpec.verdict p.pre p.odPaused p.writes p.post
@@ -33,6 +43,7 @@ def monitor (s : AnyScn) (out : String) : String :=
   match s with
   | .sys s => Pko.Drv.SysMon.monitor .c09 s out
   | .od _ => judgeTrace out passVerdict
+  | .pkg p => Pko.Drv.C09Pkg.monitor p out
 
 end Pko.Drv.C09
 
